@@ -8,7 +8,7 @@ ENGINE = 'E1'
 TECHNIQUE = 'bounded exhaustive enumeration (full altitude grid, station x query grid incl. both sides of the 30-ft shortcut, full T x P x humidity grid) against an independent ISO 2533 model and monotonicity along every grid line'
 RULE = ('isa cells = every altitude -1400..36000 ft step 100 ft (thorough 25 ft); station cells = stations {-1000,0,5000,15000,30000 ft} x '
         'query every 250 ft plus offsets {0,+-1,+-29.999,+-30,+-30.001} around the station, standard and two non-standard stations; '
-        'grid cells = T -60..60 C step 10 x P 500..1100 hPa step 100 x humidity {0,.25,.5,.75,1}; non-trivial = query altitude differs '
+        'history cells = every sequence of <= 3 (thorough 4) operations over {query near/100 ft/5000 ft away, set humidity 0/0.5/100 %, set invalid humidity} on a live atmosphere, compared after every step with a freshly built one; grid cells = T -60..60 C step 10 x P 500..1100 hPa step 100 x humidity {0,.25,.5,.75,1}; non-trivial = query altitude differs '
         'from the station / grid cell with all three neighbours present')
 ASSUMPTIONS = ['ISO 2533 constants (T0 288.15 K, L 6.5 K/km, P0 101325 Pa, R 287.05287, gamma 1.4, g0 9.80665); rho0 1.225',
                'grid values only; troposphere only (<= 36000 ft)']
@@ -183,7 +183,50 @@ def vacuum(cell):
     return {'v': out[:2], 'n': 2, 'nt': cell if a0 != q else None}
 
 
-PARTS = {'isa': isa_cell, 'station': station, 'grid': grid, 'reject': reject, 'vacuum': vacuum}
+HOPS = ['q_near', 'q100', 'q5000', 'h0', 'h50', 'h100pct', 'h_bad']
+
+
+def history(cell):
+    """an atmosphere object is mutable (humidity setter): after ANY sequence of queries and humidity assignments it must predict exactly what a
+    freshly built atmosphere with the same station values and the current humidity predicts (no stale derived values)"""
+    import py_ballisticcalc as pb
+    U = pb.Unit
+    kind, a0, ops = cell
+    st = _station(kind, a0)
+    out = []
+    n = 0
+    hum = st.humidity
+    for k, op in enumerate(ops):
+        if op == 'q_near':
+            st.get_density_factor_and_mach_for_altitude(a0 + 10.0)
+        elif op == 'q100':
+            st.get_density_factor_and_mach_for_altitude(a0 + 100.0)
+        elif op == 'q5000':
+            st.get_density_factor_and_mach_for_altitude(a0 + 5000.0)
+        elif op == 'h_bad':
+            try:
+                st.humidity = 101
+                out.append({'msg': 'humidity 101 accepted', 'key': None})
+            except ValueError:
+                pass
+        else:
+            hum = {'h0': 0.0, 'h50': 0.5, 'h100pct': 100}[op]
+            st.humidity = hum
+        fresh = pb.Atmo(st.altitude, st.pressure, st.temperature, hum)
+        n += 1
+        for q in (a0, a0 + 10.0, a0 + 31.0, a0 + 100.0, a0 + 5000.0, a0 - 500.0):
+            got, exp = st.get_density_factor_and_mach_for_altitude(q), fresh.get_density_factor_and_mach_for_altitude(q)
+            if got != exp:
+                out.append({'msg': f'{kind} station at {a0} ft after {ops[:k + 1]}: prediction at {q} ft is {got}, a freshly built atmosphere with the same values and humidity {hum} predicts {exp}', 'key': None})
+                break
+        if st.density_ratio != fresh.density_ratio:
+            out.append({'msg': f'{kind} station at {a0} ft after {ops[:k + 1]}: density_ratio {st.density_ratio!r} differs from a freshly built atmosphere ({fresh.density_ratio!r})', 'key': None})
+        if out:
+            break
+    return {'v': out[:2], 'n': n, 'nt': cell if len(ops) >= 2 else None}
+
+
+PARTS = {'isa': isa_cell, 'station': station, 'grid': grid, 'reject': reject, 'vacuum': vacuum, 'history': history}
 OFFS = [0, 1, -1, 29.999, -29.999, 30, -30, 30.001, -30.001]
 
 
@@ -203,4 +246,7 @@ def plan(tier):
                 st.append([kind, a0, q])
     gr = [[t, p, h] for t in range(-60, 61, 10) for p in range(500, 1101, 100) for h in (0, 0.25, 0.5, 0.75, 1)]
     vac = [[a0, float(q)] for a0 in stations for q in range(-1400, 36001, 2000 if tier == 'quick' else 250)]
-    return [('isa', alts), ('station', st), ('grid', gr), ('reject', [-1, -0.01, 100.01, 1e9, -1e-9, 101]), ('vacuum', vac)]
+    import itertools
+    depth = 3 if tier == 'quick' else 4
+    hs = [[kind, a0, list(ops)] for kind in ('std', 'hot') for a0 in (0, 5000) for d in range(1, depth + 1) for ops in itertools.product(HOPS, repeat=d)]
+    return [('isa', alts), ('station', st), ('grid', gr), ('reject', [-1, -0.01, 100.01, 1e9, -1e-9, 101]), ('vacuum', vac), ('history', hs)]
